@@ -26,7 +26,7 @@ DETECTORS = [
     ("Hellinger", HellingerDistance, lambda rng: {"num_bins": rng.choice([3, 4, 7, 25])}),
     ("Bhattacharyya", BhattacharyyaDistance, lambda rng: {"num_bins": rng.choice([3, 4, 7, 25])}),
     ("HI", HINormalizedComplement, lambda rng: {"num_bins": rng.choice([3, 4, 7, 25])}),
-    ("JS", JS, lambda rng: {"num_bins": rng.choice([4, 6, 15])}),
+    ("JS", JS, lambda rng: {"num_bins": rng.choice([4, 6, 15]), **rng.choice([{}, {"base": 2.0}, {"base": 10.0}])}),
     ("KL", KL, lambda rng: {"num_bins": rng.choice([4, 6, 15])}),
     ("EMD", EMD, lambda rng: {}),
     ("Energy", EnergyDistance, lambda rng: {}),
